@@ -1,7 +1,7 @@
 """C17 - parsing time does not blow up with nesting or length.
 M  MC_Packrat: the memo-table machine (GramPackrat) - every key computed at most once, entries linear in the input length.
 B  the real parser's work (entries / hits of memoised parsing functions, counted by the guarded hook in cache_check!) and
-   CPU time are recorded for 20 input families (well-formed, truncated, unbalanced) at n, 2n, 4n, 8n; TLC (Trace_Packrat)
+   CPU time are recorded for 33 input families (well-formed, truncated, unbalanced) at n, 2n, 4n, 8n; TLC (Trace_Packrat)
    requires the growth allowance when the input doubles.  Running time is not a state property: level 'other'."""
 import json, os
 import vf
@@ -53,7 +53,7 @@ def run(c):
     pv = vf.validate_trace("Trace_Packrat", ptr, "c17-probe", par=1)
     c.probe("work x40 when the input doubles", any('"C17"' in x["what"] for x in pv["rejects"]))
     c.cov["explanation"] = ("Running time is not a state property, so TLA+ cannot decide it. The property is restated on deterministic work units that the memo-table "
-                            "specification (GramPackrat) defines and a guarded hook in cache_check! measures: for each of 20 input families the number of entries of memoised parsing "
+                            "specification (GramPackrat) defines and a guarded hook in cache_check! measures: for each of 33 input families the number of entries of memoised parsing "
                             "functions at sizes n, 2n, 4n, 8n (n up to %d tokens-ish) must grow by at most x10 per doubling (measured: x2.0 everywhere), CPU time by at most x16 once measurable, "
                             "and no case may hit the 60 s limit. TLC checks the memo-table machine's design bound and judges the recorded measurements (Trace_Packrat)." % maxn)
     c.assumptions += ["entries are counted before the cache lookup, so a function that drops its lookup makes its callees' entries explode and is seen",
